@@ -611,7 +611,7 @@ class DatasetProcessor:
             if not self.args.read_assignments:
                 # (the read groups of a restarted run are stored in the saved records: there is no table to split
                 # and no alignment file to split it against)
-                prepare_read_groups(self.args, sample)
+                prepare_read_groups(self.args, sample, self.get_chr_list())
             open(fname, "w").close()
         self.args.use_technical_replicas = self.args.read_group == "file_name" and input_file_count > 1
 
